@@ -412,7 +412,7 @@ def run(ctx):
         sub = random.Random("finding %s %d" % (shape, ctx.seed))
         fcases = []
         tries = 0
-        while len(fcases) < ctx.budget(24 if shape == "atom-removed-by-link" else 6, 60) and tries < 2000:
+        while len(fcases) < ctx.budget(45 if shape == "atom-removed-by-link" else 6, 90) and tries < 2000:
             tries += 1
             # (no modifications together with atom removal: they would be applied by the renumbered resids)
             case = make_case(sub, findings=(shape,), protein=False if shape == "atom-removed-by-link" else None,
